@@ -1,6 +1,7 @@
 package main
 
 import (
+	"go/token"
 	"fmt"
 
 	"gclverify/xt/ssa"
@@ -9,7 +10,7 @@ import (
 func init() {
 	register("C07", &ruleSet{
 		run:    runC07,
-		floors: map[string]int{"O1": 4, "O2": 4, "O3": 4, "O4": 1},
+		floors: map[string]int{"O1": 4, "O2": 4, "O3": 4, "O4": 1, "O5": 3, "O6": 2},
 		explain: "Decides the demand gate, which is a comparator / dominance fact (the recovery half - saturated drop-free samples bring the estimate to within one of its " +
 			"ceiling in a bounded number of samples - quantifies over numeric trajectories and is not applicable): (O1) for AIMD, Vegas, Gradient and Gradient2 every store of " +
 			"the estimate that is not proved <= the old estimate lies only on paths that established 'not app-limited' with the property's own comparator: 2 x inFlight >= " +
@@ -26,6 +27,9 @@ func runC07(p *Prog, l *Ledger) {
 	l.Assume("valid configuration and inductive hypothesis as in C04")
 	l.Rule("O3", "what the gate argument takes as given is established by the code (decided by the C04/O1 rule on the same tree): every stored estimate stays within [max(1,minLimit), maxLimit], so a reset to the floor (probe) never lifts an estimate that had sunk below it")
 	importObligations(p, l, "C04", "O3", func(o *Obligation) bool { return o.Rule == "O1" })
+	l.Rule("O5", "a saturated drop-free sample moves the estimate, or the path has bounded one measured quantity from below and from above (the band in which the algorithm holds the estimate)")
+	l.Rule("O6", "probing (decided by the C15/O4 rule on the same tree): a probe resets the estimate to its floor, so probes fire one period apart and not at all when disabled")
+	importObligations(p, l, "C15", "O6", func(o *Obligation) bool { return o.Rule == "O4" })
 	l.Rule("O4", "the default step tables cannot produce a zero step: every entry of the pre-computed lookup tables of limit/functions is proved >= 1 (a zero alpha/beta/increase step is a stuck state: healthy saturation no longer raises the estimate)")
 	if ok, why := tableStepNonNegative(p); ok {
 		l.OK("O4", "limit/functions/tables", "", "every stored table entry is a conversion of max(1, ...)")
@@ -41,6 +45,65 @@ func runC07(p *Prog, l *Ledger) {
 		want := 2.0
 		if !af.A.Float {
 			want = 1.0
+		}
+		// O5: a saturated, drop-free sample moves the estimate - unless the algorithm has decided that the estimate is right
+		// where it is, which takes a lower AND an upper bound on the same measured quantity (Vegas: queue estimate between
+		// alpha and beta). A one-sided test that ends in "leave it" (the candidate exceeds the ceiling: skip) is a state
+		// from which healthy saturation does not recover.
+		{
+			var bad5 []string
+			n5 := 0
+			EnumPaths(af.Fn, 400000, func(pa *Path) bool {
+				if !pa.IsReturn() {
+					return true
+				}
+				for _, s := range af.Stores {
+					if pa.Contains(s.Instr) {
+						return true
+					}
+				}
+				if af.Drop != nil {
+					if isDrop, known := pa.FactOn(af.Drop, len(pa.Blocks)); known && isDrop {
+						return true
+					}
+				}
+				if c06BaselineReturn(p, pa) {
+					return true
+				}
+				last := len(pa.Blocks)
+				pr := &prover{p: p, pa: pa, step: last - 1, entry: af.Entry}
+				c04Axioms(p, pr, af.A, pa, l)
+				if notAppLimited(pr, af, last) == 0 {
+					return true
+				}
+				n5++
+				lowers, uppers := map[ssa.Value]bool{}, map[ssa.Value]bool{}
+				for _, r := range pa.Rels(-1) {
+					for _, rr := range []Rel{r, {X: r.Y, Y: r.X, Op: flipOp(r.Op)}} {
+						x := strip(rr.X, true)
+						if _, isC := x.(*ssa.Const); isC {
+							continue
+						}
+						switch rr.Op {
+						case token.GTR, token.GEQ:
+							lowers[x] = true
+						case token.LSS, token.LEQ:
+							uppers[x] = true
+						}
+					}
+				}
+				band := false
+				for x := range lowers {
+					if uppers[x] {
+						band = true
+					}
+				}
+				if !band {
+					bad5 = append(bad5, "a saturated, drop-free sample leaves the estimate untouched on a one-sided test: "+joinWitness(p.DescribePath(pa)))
+				}
+				return len(bad5) < 2
+			})
+			l.Check(len(bad5) == 0, "O5", key+"/saturated-sample-moves", p.FuncPos(af.Fn), fmt.Sprintf("%d saturated drop-free paths without a store, each inside a two-sided band", n5), "healthy saturation can fail to raise the estimate: a stuck state", bad5...)
 		}
 		for si, s := range af.Stores {
 			skey := fmt.Sprintf("%s/%s", key, af.Keys[si])
